@@ -341,7 +341,8 @@ fn shipped_lane(ctx: &mut Ctx, idx: u64) {
         return;
     }
     // the value carries what the paragraph said (values are canonical, so text equality is expected)
-    if il != pairs {
+    let canon_pairs: Vec<(String, String)> = pairs.iter().map(|(k, v)| (k.clone(), typed::canon_text(kind.name, k, v))).collect();
+    if il != canon_pairs {
         fail(ctx, "value-differs-from-paragraph", kind.name, "from_paragraph", json!({"paragraph": pairs, "value": il}));
         return;
     }
